@@ -20,7 +20,7 @@ type ghostDecl struct {
 }
 
 func (e *Engine) newUnit(name string) *Unit {
-	return &Unit{eng: e, name: name, initHeap: map[string]*Term{}, kindN: map[string]int{}, ghostTypes: map[string]types.Type{}, ghostDecl: map[string]ghostDecl{}}
+	return &Unit{fieldWrite: -1, eng: e, name: name, initHeap: map[string]*Term{}, kindN: map[string]int{}, ghostTypes: map[string]types.Type{}, ghostDecl: map[string]ghostDecl{}}
 }
 
 // nthFuncLit finds the n-th func literal (source order) in a declaration.
@@ -167,7 +167,7 @@ func (e *Engine) VerifyFunc(t unitTarget) *Unit {
 			sym := u.fresh(nm, c.sortOfType(pt))
 			c.typeFacts(st, sym, pt)
 			switch unalias(pt).Underlying().(type) {
-			case *types.Signature:
+			case *types.Signature, *types.Chan:
 				var obj types.Object
 				if n != nil {
 					obj = info.Defs[n]
@@ -231,6 +231,7 @@ func (e *Engine) VerifyFunc(t unitTarget) *Unit {
 	}
 	// ghost variable declarations: `ghostvar $name type = init`
 	if t.spec != nil {
+		c.ghostPos = body.Pos()
 		for _, raw := range t.spec.Extra["ghostvar"] {
 			c.declareGhostVar(st, raw, t.spec.Where)
 		}
@@ -306,7 +307,7 @@ func (c *ExecCtx) declareGhostVar(st *State, raw, where string) {
 		return
 	}
 	name := dollar(fs[0])
-	env := c.newEnv(nil, token.NoPos)
+	env := c.newEnv(nil, c.ghostPos)
 	env.where = where
 	te, err := parseTypeExpr(strings.Join(fs[1:], " "))
 	if err != nil {
